@@ -377,7 +377,14 @@ class C11Machine(RecordingMixin, RuleBasedStateMachine):
             return a.analyze(inputs, expected)
 
         def cmp(a, b):
-            if not np.allclose(np.asarray(a.array), np.asarray(b.array), atol=1e-12, rtol=0):
+            oa, ob = [tuple(o) for o in a.outputs], [tuple(o) for o in b.outputs]
+            if sorted(oa) != sorted(ob):
+                return f"outputs differ: {len(oa)} states vs {len(ob)} states for a fresh analyzer"
+            A, B = np.asarray(a.array), np.asarray(b.array)
+            if A.shape != B.shape:
+                return f"array shapes {A.shape} vs {B.shape}"
+            perm = [oa.index(o) for o in ob]
+            if not np.allclose(A[:, perm], B, atol=1e-12, rtol=0):
                 return "probability arrays differ"
             pa = {k for k in vars(a) if not k.startswith("_")}
             pb = {k for k in vars(b) if not k.startswith("_")}
@@ -484,6 +491,23 @@ class C11Machine(RecordingMixin, RuleBasedStateMachine):
         self.step("input", occ=[1, 1, 1])
         self.step("sample", which="N_inputs", seed=seed, n=20)
         self.step("read", which="sampler")
+
+    @rule(useed=st.integers(0, 10 ** 6), m=st.integers(2, 4), mode=st.integers(0, 3),
+          loss=st.sampled_from([0.3, 0.5, 0.9]), shorthand=st.booleans(), exp=st.booleans())
+    def r_analyze_add_loss_analyze(self, useed, m, mode, loss, shorthand, exp):
+        """lossless circuit analysed, then made lossy in place, then analysed again by the same objects"""
+        if not self.ready:
+            return
+        self.step("assign_circuit", prog={"n": m, "ops": [["unitary", 0, "haar", m, useed]]}, how="random",
+                  a=0, b=0, n=0)
+        self.step("input", occ=[1, 1])
+        self.step("analyze", use_expected=exp, occ2=[0, 1, 1])
+        self.step("read", which="quick")
+        op = ["ps", mode % m, 0.4, loss] if shorthand else ["loss", mode % m, loss]
+        self.step("edit_circuit", op=op)
+        self.step("analyze", use_expected=exp, occ2=[0, 1, 1])
+        self.step("read", which="quick")
+        self.step("sample", which="N_outputs", seed=useed, n=20)
 
     @rule(pc=st.booleans())
     def r_quick_pc_only(self, pc):
